@@ -23,11 +23,18 @@ def demo_cmd(demo):
     names = re.findall(r"^\+\s*(?:async )?fn (seed_demo\w*|\w*seed\w*)\(", txt, re.M)
     cmds = []
     for f in files:
-        if f == "tests/solver.rs":
+        if f.startswith("cpp/tests/") and f.endswith(".rs"):
+            cmds.append("cargo test --offline -p resolvo_cpp --test %s" % os.path.basename(f)[:-3])
+        elif f.startswith("cpp/src/seed_demo"):
+            cmds.append("cargo test --offline -p resolvo_cpp seed_demo")
+        elif f.startswith("cpp/"):
+            continue
+        elif f == "tests/solver.rs":
             flt = names[0] if names else "seed_demo"
             cmds.append("cargo test --offline -p resolvo --features serde --test solver %s" % ("seed_demo" if len(names) != 1 else flt))
         elif f.startswith("tests/"):
             cmds.append("cargo test --offline -p resolvo --features serde --test %s" % os.path.basename(f)[:-3])
+    cmds = list(dict.fromkeys(cmds))
     return " && ".join(cmds) or "cargo test --offline seed_demo"
 
 def main():
